@@ -292,6 +292,12 @@ def check_product_rule(ctx):
     shape.match_stmts(ctx, "R15.1", TEN + ".Tensor.jacobian:row", lp.body, ["onehot = numpy.zeros(dim or (1,))", "onehot[i] = 1", "result += Tensor(Dim(1), dim, onehot) @ self.grad(var)"], NJ, mod=TEN, node=lp,
                       sig="tensor-jacobian-row", exact=True, required="the i-th basis vector of the new axis tensored with the gradient in the i-th variable")
     shape.match(ctx, "R15.1", TEN + ".Tensor.jacobian:result", ret_expr(tj.body), "result", {}, mod=TEN, node=tj, sig="tensor-jacobian-result")
+    djl = next((s for s in jf.body if isinstance(s, ast.For)), None)
+    if djl is not None and isinstance(djl.target, ast.Tuple) and len(djl.target.elts) == 2:
+        shape.match_stmts(ctx, "R15.1", TEN + ".Diagram.jacobian:row", djl.body, ["onehot = numpy.zeros(dim or (1,))", "onehot[i] = 1", "result += Box(var, Dim(1), dim, onehot) @ self.grad(var)"],
+                          {djl.target.elts[0].id: "i", djl.target.elts[1].id: "var"}, mod=TEN, node=djl, sig="diagram-jacobian-row", exact=True,
+                          required="the i-th basis vector of the new axis (as a box) tensored with the gradient in the i-th variable")
+    shape.match(ctx, "R15.1", TEN + ".Diagram.jacobian:result", ret_expr(jf.body), "result", {}, mod=TEN, node=jf, sig="diagram-jacobian-result")
     shape.match_stmts(ctx, "R15.1", TEN + ".Diagram.jacobian:prelude", [s for s in jf.body if isinstance(s, ast.Assign)], ["dim = Dim(len(variables) or 1)", "result = Sum([], self.dom, dim @ self.cod)"], mod=TEN, node=jf,
                       sig="diagram-jacobian-prelude", required="the empty sum of type dom -> Dim(number of variables) @ cod")
     tg = m.func(TEN + ".Tensor.grad")
